@@ -1,7 +1,7 @@
 (* Pinned statements of the C16 theorems (must match Properties/C16.v). *)
-From Coq Require Import ZArith NArith List Bool.
+From Coq Require Import ZArith NArith List Bool Permutation.
 Import ListNotations.
-Require Import TC.Generated.Consts TC.Base.Map TC.Resp.Utf8 TC.Server.Denied TC.Server.Escape TC.Corr.DeniedCorr TC.Corr.DeniedSound.
+Require Import TC.Generated.Consts TC.Base.Map TC.Resp.Utf8 TC.Server.Denied TC.Server.Escape TC.Corr.DeniedCorr TC.Corr.DeniedSound TC.Server.DeniedConc.
 Open Scope Z_scope.
 Require Import TC.Properties.C16.
 
@@ -29,3 +29,11 @@ Check C16_line_single_newline : forall (prefix mid suffix key : list N),
 Check C16_acceptance_sound :
   forall (mx : nat) (obs : list dobs), denied_case_ok (mx, obs) = true ->
   Forall (fun o => exists t1, dstep mx (d_prev o) (d_key o) t1 /\ same_map t1 (d_next o) /\ valid_top mx (d_next o) (d_top o)) obs.
+Check C16_exact_any_interleaving :
+  forall (mx : nat) (ks ks' : list bytes) (t : tbl) (r : list (bytes * Z)),
+  Permutation ks ks' ->
+  (1 <= mx)%nat -> (length (exact_tbl [] ks) <= mx)%nat -> drun mx [] ks' t -> valid_top mx t r ->
+  length r = length (exact_tbl [] ks) /\ forall k n, In (k, n) r -> n = true_count ks k.
+Check C16_never_overstates_any_interleaving :
+  forall (mx : nat) (ks ks' : list bytes) (t : tbl) (r : list (bytes * Z)) (k : bytes) (n : Z),
+  Permutation ks ks' -> drun mx [] ks' t -> valid_top mx t r -> In (k, n) r -> 1 <= n <= true_count ks k.
